@@ -146,6 +146,60 @@ def generate(repo, gen_dir):
                 consts.append((name, 1))
         except (OSError, ValueError, IndexError, KeyError) as e:
             missing.append((name, rel, str(e)))
+    # ---- InnerDispatcher::upgrade(): which fields are moved into the FramedParts handed to the
+    # upgrade service, in source order (0 = io, 1 = codec, 2 = read_buf, 3 = write_buf); a field
+    # counts only when it is taken out of the dispatcher AND reaches the parts (constructor
+    # argument of FramedParts::with_read_buf, or an assignment parts.<field> = ...)
+    try:
+        if DSP not in cache:
+            cache[DSP] = open(os.path.join(repo, DSP), encoding="utf-8").read()
+        m = re.search(r'\n    fn upgrade\(self: Pin<&mut Self>, req: Request\) -> U::Future \{\n(.*?)\n    \}\n', cache[DSP], flags=re.S)
+        if not m:
+            raise ValueError("fn upgrade not found")
+        body = re.sub(r'//[^\n]*', '', m.group(1))
+        if not re.search(r'this\.flow\.upgrade\.as_ref\(\)\.unwrap\(\)\.call\(\(req, framed\)\)', body):
+            raise ValueError("call of the upgrade service not found")
+        moves = []
+        at = body.find("FramedParts::with_read_buf(")
+        if at < 0:
+            raise ValueError("FramedParts::with_read_buf(..) not found")
+        i = at + len("FramedParts::with_read_buf(")
+        depth, cur, args = 1, "", []
+        while depth > 0:
+            if i >= len(body):
+                raise ValueError("unbalanced FramedParts::with_read_buf(..)")
+            ch = body[i]
+            if ch == "(":
+                depth += 1
+            elif ch == ")":
+                depth -= 1
+                if depth == 0:
+                    break
+            if ch == "," and depth == 1:
+                args.append(cur)
+                cur = ""
+            else:
+                cur += ch
+            i += 1
+        if cur.strip():
+            args.append(cur)
+        if len(args) != 3:
+            raise ValueError("with_read_buf has %d arguments" % len(args))
+        takes = {"this.io.take().unwrap()": 0, "mem::take(this.codec)": 1, "mem::take(this.read_buf)": 2}
+        for pos, arg in enumerate(args):
+            arg = " ".join(arg.split())
+            if takes.get(arg) != pos:
+                raise ValueError("argument %d of with_read_buf is %r" % (pos, arg))
+            moves.append(pos)
+        for fld, src in re.findall(r'parts\.(\w+)\s*=\s*mem::take\(this\.(\w+)\)\s*;', body):
+            if fld != src or fld not in ("write_buf", "read_buf", "codec"):
+                raise ValueError("parts.%s = mem::take(this.%s)" % (fld, src))
+            moves.append({"codec": 1, "read_buf": 2, "write_buf": 3}[fld])
+        defs.append("Definition H1DISP_UPGRADE_MOVES : list N := [%s].  (* %s : fn upgrade: 0 io, 1 codec, 2 read_buf, 3 write_buf *)"
+                    % ("; ".join(map(str, moves)), DSP))
+        consts.append(("H1DISP_UPGRADE_MOVES_LEN", len(moves)))
+    except (OSError, ValueError) as e:
+        missing.append(("H1DISP_UPGRADE_MOVES", DSP, str(e)))
     out = ["(* GENERATED by tools/gen/h1_encoder.py (run by tools/extract_consts.py) from actix-http/src/h1/encoder.rs,",
            "   codec.rs, dispatcher.rs and helpers.rs on every check run: the status rules, version rules and",
            "   literal byte strings of the HTTP/1 response encoder.  Tied to H1/Encoder.v by H1/EncoderGenProofs.v. *)",
